@@ -522,6 +522,18 @@ func run(r *mon.Run) {
 				x, _ = t.Build(nil)
 				judge(r, x, "section-dropped", name+"/"+order[i], false, 17)
 			}
+			// a section name repeated with other sections in between (every pair of positions)
+			for i := range order {
+				for pos := 0; pos <= len(order); pos++ {
+					if pos == i || pos == i+1 {
+						continue // adjacent copies are the "section-duplicated" class above
+					}
+					t := *s
+					t.SectionOrder = append(append(append([]string{}, order[:pos]...), order[i]), order[pos:]...)
+					x, _ := t.Build(nil)
+					judge(r, x, "section-repeated-apart", fmt.Sprintf("%s/%s@%d", name, order[i], pos), false, 17)
+				}
+			}
 			g := r.Rand("unknown", bi)
 			idxBytes := sectionBytes(pristine, "index")
 			decoy := append([]byte{}, idxBytes...)
